@@ -43,11 +43,25 @@ def _bounded_pow(base: Any, exponent: Any) -> Any:
     return operator.pow(base, exponent)
 
 
+def _deep_size(obj: Any, limit: int) -> int:
+    """Number of elements of a str/list/tuple counting nested sequences; stops counting once above limit."""
+    total = 0
+    stack = [obj]
+    while stack and total <= limit:
+        current = stack.pop()
+        if isinstance(current, (str, bytes, list, tuple)):
+            total += len(current)
+            if isinstance(current, (list, tuple)):
+                stack.extend(item for item in current if isinstance(item, (str, bytes, list, tuple)))
+    return total
+
+
 def _bounded_mul(left: Any, right: Any) -> Any:
     """operator.mul that refuses huge integers and huge sequence repetitions."""
     for seq, count in ((left, right), (right, left)):
         if isinstance(seq, (str, bytes, list, tuple)) and isinstance(count, int):
-            if len(seq) * max(count, 0) > MAX_SEQUENCE_LENGTH:
+            # nested elements count too: a million references to one big list are cheap to build but not to traverse
+            if _deep_size(seq, MAX_SEQUENCE_LENGTH) * max(count, 0) > MAX_SEQUENCE_LENGTH:
                 raise ValueError("Result of * too large")
     if isinstance(left, int) and isinstance(right, int):
         if left.bit_length() + right.bit_length() > MAX_INT_BITS:
